@@ -6,7 +6,7 @@ tensors, job structure) satisfying `WF` and over every reachable state, i.e. eve
 Helper developments: Lemmas/Writer*.lean.
 -/
 import IrVerif.Lemmas.WriterFiles
-import IrVerif.Lemmas.WriterNLog
+import IrVerif.Lemmas.WriterNFiles
 namespace IrVerif.Writer
 
 theorem reachable_inv {cfg : Cfg} (wf : WF cfg) {s : State} (h : Reachable cfg s) :
@@ -372,13 +372,53 @@ theorem C09_tensor_mutex {cfg : Cfg} (wf : WF cfg) {s : State} (h : Reachable cf
   simp [fT, hp, hq, hobj.symm] at h2
   split at htl <;> omega
 
-/-- **C09_callback_once_partial** (nested): in every reachable state the callback log has no
-    duplicates and contains exactly the tensors whose callback step has been executed.
-    *Missing* for the general pool tree (proved for the flat modes in
-    `IrVerif.Writer.C09_callback_once`): "after a successful save the log contains every tensor". -/
-theorem C09_callback_once_partial {cfg : Cfg} (wf : WF cfg) {s : State} (h : Reachable cfg s) :
-    s.log.Nodup ∧ ∀ k, k ∈ s.log ↔ called s k :=
-  ⟨(reachable_GInv wf h).nodup, (reachable_GInv wf h).mem⟩
+theorem reachable_KInv {cfg : Cfg} (wf : WF cfg) {s : State} (h : Reachable cfg s) : KInv cfg s := by
+  induction h with
+  | init => exact KInv_init wf
+  | step l hr hst ih => exact KInv_step wf (reachable_Inv wf hr) ih (stepRel_of_step hst)
+
+/-- (nested) after a successful save every tensor has been written, whatever pool wrote it -/
+theorem finished_ok_all_done {cfg : Cfg} (wf : WF cfg) {s : State} (h : Reachable cfg s)
+    (hm : (s.pl 0).owner = .closed false) : ∀ i, i < cfg.n → s.tasks[i]? = some (.done true) :=
+  all_done_of_closed_ok wf (reachable_Inv wf h) (reachable_KInv wf h) hm
+
+/-- **C09_callback_once** (nested): in every reachable state the callback log has no duplicates and
+    contains exactly the tensors whose callback step has been executed; after a successful save it
+    contains every tensor exactly once. -/
+theorem C09_callback_once {cfg : Cfg} (wf : WF cfg) {s : State} (h : Reachable cfg s) :
+    s.log.Nodup ∧ (∀ k, k ∈ s.log ↔ called s k) ∧
+    ((s.pl 0).owner = .closed false → ∀ k, k ∈ s.log ↔ k < cfg.n) := by
+  have hg := reachable_GInv wf h
+  refine ⟨hg.nodup, hg.mem, fun hm k => ?_⟩
+  rw [hg.mem k]
+  constructor
+  · rintro ⟨p, hp, _⟩
+    rw [← (reachable_Inv wf h).s.tasks_len]; exact getElem?_lt hp
+  · intro hk
+    exact ⟨_, finished_ok_all_done wf h hm k hk, rfl⟩
+
+theorem layoutb_sound {cfg : Cfg} (h : layoutb cfg = true) : Layout cfg := by
+  simp only [layoutb, Bool.and_eq_true, List.all_eq_true, List.mem_range, decide_eq_true_eq] at h
+  exact ⟨h.1, fun i j hi hj => h.2 i hi j hj⟩
+
+theorem reachable_FInv {cfg : Cfg} (wf : WF cfg) (lay : Layout cfg) {s : State}
+    (h : Reachable cfg s) : FInv cfg s := by
+  induction h with
+  | init => exact FInv_init cfg
+  | step l hr hst ih => exact FInv_step wf lay (reachable_Inv wf hr).s ih (stepRel_of_step hst)
+
+/-- **C09_bytes_serial** (nested): after any schedule of any pool tree, a save that returns normally
+    has produced files byte-identical to the serial save. -/
+theorem C09_bytes_serial {cfg : Cfg} (wf : WF cfg) (lay : Layout cfg) {s : State}
+    (h : Reachable cfg s) (hm : (s.pl 0).owner = .closed false) : s.files = serialFiles cfg := by
+  have hf := reachable_FInv wf lay h
+  have hall := finished_ok_all_done wf h hm
+  have hlen := (reachable_Inv wf h).s.tasks_len
+  have hser := serial_spec lay cfg.n (Nat.le_refl _)
+  refine Spec_ext (Spec_congr (fun k => ?_) hf) hser
+  constructor
+  · rintro ⟨p, hp, _⟩; rw [← hlen]; exact getElem?_lt hp
+  · intro hk; exact ⟨_, hall k hk, rfl⟩
 
 /-- **C09_deadlock_free** (nested): every reachable state in which the save has not returned has an
     enabled step. -/
@@ -525,6 +565,7 @@ def exNested (fail3 : Bool) : Cfg where
   jobs := [⟨0, 0, some 1⟩, ⟨0, 2, some 2⟩, ⟨1, 0, none⟩, ⟨1, 1, none⟩, ⟨2, 2, none⟩, ⟨2, 3, none⟩]
   files := [[0, 0, 0, 0, 0, 0, 0], [0, 0, 0, 0]]
 
+example : Layout (exNested true) := layoutb_sound (by decide)
 example : WF (exNested true) := wfb_sound (by decide)
 example : WF (exNested false) := wfb_sound (by decide)
 
